@@ -118,6 +118,9 @@ Record aop := {
   o_mem : nat;            (* member whose API server handled the request *)
   o_req : req;
   o_bad : bool;           (* malformed request (bad yaml / unknown kind / url name mismatch): 400 before the lock *)
+  o_fk : nat;             (* fault injection (cluster double only): the k-th cluster operation of this request
+                             fails once (1 = the version read of the middleware, 2.. = handler steps 0..3); 0 = none *)
+  o_hit : bool;           (* the request really reached that operation *)
   o_call : Z; o_ret : Z;  (* stamps of one atomic counter: before the call, after the return *)
   o_status : Z;
   o_ver : Z;              (* X-Config-Version header of the response *)
@@ -133,6 +136,18 @@ Record api_case := {
 
 Definition is_succ (o : aop) : bool :=
   negb (o_bad o) && is_mut (o_req o) && ((o_status o =? 200) || (o_status o =? 201)).
+
+Definition is_err (o : aop) : bool := 500 <=? o_status o.
+
+(** a mutation cut short by the injected fault AFTER its object write (fault on the in-lock version read or
+    version write): it answered 5xx, wrote no version, and its object write is part of the store *)
+Definition is_part (o : aop) : bool :=
+  o_hit o && negb (o_bad o) && is_mut (o_req o) && is_err o && Nat.leb 4 (o_fk o).
+
+(** requests that never take the lock: malformed ones, and those whose first cluster operation (the
+    version read of the middleware) or whose GET read was made to fail *)
+Definition no_thread (o : aop) : bool :=
+  o_bad o || (o_hit o && (Nat.eqb (o_fk o) 1 || is_get (o_req o))).
 
 (** insertion sort of (index, op) by returned version *)
 Fixpoint ins_ver (x : nat * aop) (l : list (nat * aop)) : list (nat * aop) :=
@@ -160,25 +175,32 @@ Fixpoint nodup_names (o : objects) : bool :=
 Definition objs_eqb (o1 o2 : objects) : bool :=
   nodup_names o1 && nodup_names o2 && objs_sub o1 o2 && objs_sub o2 o1.
 
-(** states S_0 .. S_k of the replay of the successes in version order *)
+(** effect of one element of the replay sequence (a success, or a cut-short mutation) *)
+Definition eff_apply (st : store) (o : aop) : store :=
+  if is_part o then (apply_objs (o_req o) (fst st), snd st) else spec_apply st (o_req o).
+
+Definition eff_legal (st : store) (o : aop) : bool :=
+  if is_part o then match precheck (fst st) (o_req o) with None => true | Some _ => false end
+  else match spec_result st (o_req o) with
+       | ROk c v => (o_status o =? c) && (o_ver o =? v)
+       | _ => false
+       end.
+
+(** states S_0 .. S_k of the replay *)
 Fixpoint scan_states (st : store) (l : list (nat * aop)) : list store :=
   st :: match l with
         | [] => []
-        | (_, o) :: t => scan_states (spec_apply st (o_req o)) t
+        | (_, o) :: t => scan_states (eff_apply st o) t
         end.
 
-(** each success is legal at its point and returned the right code and version *)
+(** each element is legal at its point (a success returned the right code and version) *)
 Fixpoint succ_legal (st : store) (l : list (nat * aop)) : bool :=
   match l with
   | [] => true
-  | (_, o) :: t =>
-      (match spec_result st (o_req o) with
-       | ROk c v => (o_status o =? c) && (o_ver o =? v)
-       | _ => false
-       end) && succ_legal (spec_apply st (o_req o)) t
+  | (_, o) :: t => eff_legal st o && succ_legal (eff_apply st o) t
   end.
 
-(** real-time order among the successes: a later version never returned before an earlier one was called *)
+(** real-time order: a later element never returned before an earlier one was called *)
 Fixpoint rt_ok (l : list (nat * aop)) : bool :=
   match l with
   | [] => true
@@ -198,6 +220,12 @@ Fixpoint win_hi (f : aop) (i : nat) (l : list (nat * aop)) : nat :=
   end.
 
 Definition explains (st : store) (f : aop) : bool :=
+  if o_hit f then
+    (* cut short before any write: 5xx; if it got as far as its object write (which then failed)
+       it had passed the check *)
+    is_err f && (if Nat.eqb (o_fk f) 3 then match precheck (fst st) (o_req f) with None => true | Some _ => false end
+                 else true)
+  else
   match spec_result st (o_req f) with
   | RFail c => o_status f =? c
   | RRead None => o_status f =? 404
@@ -212,26 +240,50 @@ Fixpoint find_pos (sts : list store) (f : aop) (i : nat) (lo hi : nat) : option 
       if Nat.leb lo i && Nat.leb i hi && explains st f then Some i else find_pos t f (S i) lo hi
   end.
 
-Definition position (v0 : Z) (sorted : list (nat * aop)) (sts : list store) (f : aop) : option nat :=
-  let lo := win_lo f 0 sorted 0 in
-  let hi := win_hi f 0 sorted in
-  (* the version header of such a response was read inside the window too *)
-  if (v0 + Z.of_nat lo <=? o_ver f) && (o_ver f <=? v0 + Z.of_nat hi) then find_pos sts f 0 lo hi else None.
+Definition count_succ_upto (n : nat) (seq : list (nat * aop)) : Z :=
+  Z.of_nat (List.length (filter (fun x => is_succ (snd x)) (firstn n seq))).
 
-Definition api_prop (c : api_case) : bool :=
+Definition position (v0 : Z) (seq : list (nat * aop)) (sts : list store) (f : aop) : option nat :=
+  let lo := win_lo f 0 seq 0 in
+  let hi := win_hi f 0 seq in
+  (* the version header of such a response was read inside the window too *)
+  if o_hit f || ((v0 + count_succ_upto lo seq <=? o_ver f) && (o_ver f <=? v0 + count_succ_upto hi seq))
+  then find_pos sts f 0 lo hi else None.
+
+(** all ways to insert the cut-short mutations into the version-ordered successes *)
+Fixpoint all_inserts {A} (x : A) (l : list A) : list (list A) :=
+  (x :: l) :: match l with
+              | [] => []
+              | y :: t => map (cons y) (all_inserts x t)
+              end.
+
+Definition candidates (succ parts : list (nat * aop)) : list (list (nat * aop)) :=
+  fold_left (fun acc p => flat_map (all_inserts p) acc) parts [succ].
+
+Definition in_seq (f : aop) : bool := is_succ f || is_part f.
+
+Definition seq_check (c : api_case) (seq : list (nat * aop)) : bool :=
   let ops := index_from 0 (a_ops c) in
-  let succ := sort_ver (filter (fun x => is_succ (snd x)) ops) in
   let st0 := (a_init c, a_v0 c) in
-  let sts := scan_states st0 succ in
+  let sts := scan_states st0 seq in
   let final := last sts st0 in
-  (* versions of the successes: v0+1, v0+2, ... each once *)
-  list_eqb Z.eqb (map (fun x => o_ver (snd x)) succ) (zseq (a_v0 c + 1) (List.length succ)) &&
-  succ_legal st0 succ && rt_ok succ &&
+  succ_legal st0 seq && rt_ok seq &&
   objs_eqb (fst final) (a_final c) && (snd final =? a_finalver c) &&
   forallb (fun x => let f := snd x in
-             if is_succ f then true
-             else if o_bad f then o_status f =? 400
-             else match position (a_v0 c) succ sts f with Some _ => true | None => false end) ops.
+             if in_seq f then true
+             else if no_thread f then (if o_hit f then is_err f else o_status f =? 400)
+             else match position (a_v0 c) seq sts f with Some _ => true | None => false end) ops.
+
+Definition api_succ (c : api_case) : list (nat * aop) :=
+  sort_ver (filter (fun x => is_succ (snd x)) (index_from 0 (a_ops c))).
+Definition api_parts (c : api_case) : list (nat * aop) :=
+  filter (fun x => is_part (snd x) && negb (is_succ (snd x))) (index_from 0 (a_ops c)).
+
+Definition api_prop (c : api_case) : bool :=
+  let succ := api_succ c in
+  (* versions of the successes: v0+1, v0+2, ... each once - whether or not a fault hit the request *)
+  list_eqb Z.eqb (map (fun x => o_ver (snd x)) succ) (zseq (a_v0 c + 1) (List.length succ)) &&
+  existsb (seq_check c) (candidates succ (api_parts c)).
 
 (** *** the model's run in the order derived from the observation *)
 Definition api_cfg (c : api_case) : tid -> thr := fun t =>
@@ -240,32 +292,34 @@ Definition api_cfg (c : api_case) : tid -> thr := fun t =>
   | None => {| t_mem := O; t_hnd := O; t_req := RNoop; t_to := false |}
   end.
 
-Definition life (s : state) (t : tid) (r : req) : list (tid * label) :=
-  if is_get r then [(t, LGet)] else full_ok t (cs_len (objs s, ver s) r).
+Definition life (s : state) (t : tid) (o : aop) : list (tid * label) :=
+  if is_get (o_req o) then [(t, LGet)]
+  else if o_hit o && is_err o then full_fault t (o_fk o - 2)
+  else full_ok t (cs_len (objs s, ver s) (o_req o)).
 
 Fixpoint run_order (q : quirks) (cfg : tid -> thr) (s : state) (order : list (nat * aop)) : option state :=
   match order with
   | [] => Some s
   | (t, o) :: rest =>
-      match run q cfg s (life s t (o_req o)) with
+      match run q cfg s (life s t o) with
       | Some s' => run_order q cfg s' rest
       | None => None
       end
   end.
 
-(** order: non-successes explained at position i come after success i (and before success i+1) *)
-Definition at_pos (c : api_case) (succ : list (nat * aop)) (sts : list store) (i : nat) : list (nat * aop) :=
+(** order: requests outside the sequence explained at position i come after element i (and before i+1) *)
+Definition at_pos (c : api_case) (seq : list (nat * aop)) (sts : list store) (i : nat) : list (nat * aop) :=
   filter (fun x => let f := snd x in
-            negb (is_succ f) && negb (o_bad f) &&
-            match position (a_v0 c) succ sts f with Some j => Nat.eqb i j | None => false end)
+            negb (in_seq f) && negb (no_thread f) &&
+            match position (a_v0 c) seq sts f with Some j => Nat.eqb i j | None => false end)
          (index_from 0 (a_ops c)).
 
-Fixpoint build_order (c : api_case) (all sts_succ : list (nat * aop)) (sts : list store) (i : nat) (succ : list (nat * aop))
+Fixpoint build_order (c : api_case) (all : list (nat * aop)) (sts : list store) (i : nat) (seq : list (nat * aop))
   : list (nat * aop) :=
   at_pos c all sts i ++
-  match succ with
+  match seq with
   | [] => []
-  | x :: t => x :: build_order c all sts_succ sts (S i) t
+  | x :: t => x :: build_order c all sts (S i) t
   end.
 
 Definition res_matches (r : option result) (f : aop) : bool :=
@@ -274,21 +328,29 @@ Definition res_matches (r : option result) (f : aop) : bool :=
   | Some (RFail cde) => o_status f =? cde
   | Some (RRead None) => o_status f =? 404
   | Some (RRead (Some (k, b))) => (o_status f =? 200) && String.eqb k (o_rkind f) && String.eqb b (o_rbody f)
+  | Some (RErr _) => is_err f
   | _ => false
+  end.
+
+Definition pick_seq (c : api_case) : list (nat * aop) :=
+  match filter (seq_check c) (candidates (api_succ c) (api_parts c)) with
+  | s :: _ => s
+  | [] => api_succ c
   end.
 
 Definition api_corr (q : quirks) (c : api_case) : bool :=
   let ops := index_from 0 (a_ops c) in
-  let succ := sort_ver (filter (fun x => is_succ (snd x)) ops) in
+  let seq := pick_seq c in
   let st0 := (a_init c, a_v0 c) in
-  let sts := scan_states st0 succ in
-  let order := build_order c succ succ sts 0 succ in
+  let sts := scan_states st0 seq in
+  let order := build_order c seq sts 0 seq in
   let cfg := api_cfg c in
   match run_order q cfg (init st0) order with
   | None => false
   | Some s =>
       forallb (fun x => let f := snd x in
-                 if o_bad f then o_status f =? 400 else res_matches (fin_result (pcs s (fst x))) f) ops &&
+                 if no_thread f then (if o_hit f then is_err f else o_status f =? 400)
+                 else res_matches (fin_result (pcs s (fst x))) f) ops &&
       objs_eqb (objs s) (a_final c) && (ver s =? a_finalver c) &&
       (match queue s with [] => true | _ => false end)
   end.
@@ -301,16 +363,17 @@ Definition check_api (pinned : quirks) (c : api_case) : result4 :=
   let cls := match a_ops c with
              | [] => 0%N
              | _ => (1 + bN (has_status 409 c) 1 + bN (has_kind_change c) 2 + bN (has_status 404 c) 4
-                     + bN (a_conc c) 8 + bN (existsb (fun o => negb (Nat.eqb (o_mem o) 0)) (a_ops c)) 16)%N
+                     + bN (a_conc c) 8 + bN (existsb (fun o => negb (Nat.eqb (o_mem o) 0)) (a_ops c)) 16
+                     + bN (existsb o_hit (a_ops c)) 32 + bN (existsb is_part (a_ops c)) 64)%N
              end in
   (api_corr pinned c, api_prop c, cls, 0%N).
 
 Definition explain_api (pinned : quirks) (c : api_case) :=
-  let ops := index_from 0 (a_ops c) in
-  let succ := sort_ver (filter (fun x => is_succ (snd x)) ops) in
+  let seq := pick_seq c in
   let st0 := (a_init c, a_v0 c) in
-  let sts := scan_states st0 succ in
-  (map (fun x => (fst x, o_ver (snd x))) succ,
-   map (fun x => (fst x, position (a_v0 c) succ sts (snd x))) (filter (fun x => negb (is_succ (snd x))) ops),
+  let sts := scan_states st0 seq in
+  (map (fun x => (fst x, o_ver (snd x), is_part (snd x))) seq,
+   map (fun x => (fst x, position (a_v0 c) seq sts (snd x)))
+       (filter (fun x => negb (in_seq (snd x))) (index_from 0 (a_ops c))),
    last sts st0,
-   (succ_legal st0 succ, rt_ok succ)).
+   (succ_legal st0 seq, rt_ok seq, List.length (candidates (api_succ c) (api_parts c)))).
